@@ -424,6 +424,39 @@ def run_check(tier, seed):
         except Exception as e:
             run.stat('view_exc:' + type(e).__name__)
         run.count(('term', g_tm(t), uni), nontrivial=t.size() > 3)
+    # ---- nested binders that suggest the SAME name, the inner body mentioning the outer variable
+    #      (terms of this shape come out of beta-reduction); every binder kind, free-name clashes too
+    hR = Var('h', TFun(A, A, B))
+    Rn = Const('less', TFun(N, N, B))
+    kinds = ['all', 'exists', 'exists1', 'lam', 'collect', 'The', 'Some']
+    for i in range(40 if tier == 'quick' else 400):
+        nm = r.choice(['x', 'y', 'a', 'n', 'S'])
+        U, rel = (A, hR) if r.random() < 0.6 else (N, Rn)
+        core = rel(Bound(1), Bound(0)) if r.random() < 0.7 else C('conj', B, B, B)(rel(Bound(0), Bound(1)), rel(Bound(1), Bound(1)))
+
+        def wrap(kind, body, T):
+            lam = Abs(nm, T, body)
+            if kind in ('all', 'exists', 'exists1'):
+                return Const(kind, TFun(TFun(T, B), B))(lam), B
+            if kind == 'lam':
+                return lam, TFun(T, B)
+            if kind == 'collect':
+                return Const('collect', TFun(TFun(T, B), TConst('set', T)))(lam), TConst('set', T)
+            return Const(kind, TFun(TFun(T, B), T))(lam), T
+        k_in = r.choice(['all', 'exists', 'exists1'])
+        inner, _ = wrap(k_in, core, U)
+        k_out = r.choice(kinds)
+        t, _ = wrap(k_out, inner, U)
+        try:
+            t.checked_get_type()
+            theory.thy.check_term(t)
+        except Exception as e:
+            run.stat('gen-binders:' + type(e).__name__)
+            continue
+        for uni in (False, True):
+            roundtrip(run, t, dict(unicode=uni, highlight=False, line_length=None), 'same-name nested binders', ':nested-binders')
+        run.count(('nested-binders', g_tm(t)), nontrivial=True)
+
     codes = coq_eval_nats(run.wd, IMPORTS, exprs, defs=table_defs, tag='ast', shard=150)
     nd = nm = 0
     for (t, s), code in zip(meta, codes):
